@@ -433,6 +433,7 @@ func Run(o *corr.Out) {
 	if want("close") {
 		famClose(o, 6*mul)
 		famServe(o)
+		famServeModel(o, 30*mul)
 	}
 }
 
